@@ -350,6 +350,7 @@ theorem inv_doOp {c : Cfg} (hw : WF c) (s : St) (op : Op) (h : Inv c s) : Inv c 
   | hit i => simp only [doOp]; split; exact inv_hitDev hw s i (by assumption) h; exact h
   | ev e => exact inv_evStep hw s e h
   | advance dt => exact Inv.of_same (s := s) ⟨rfl, rfl, fun _ => rfl⟩ h
+  | setting v => exact Inv.of_same (s := s) ⟨rfl, rfl, fun _ => rfl⟩ h
 
 theorem inv_step {c : Cfg} (hw : WF c) (s : St) (op : Op) (h : Inv c s) : Inv c (step c s op) := by
   unfold step
@@ -641,6 +642,7 @@ theorem off_doOp (c : Cfg) (s : St) (i : Nat) (op : Op) (hq : enables c i op = f
   | hit j => simp only [doOp]; split; exact off_hitDev c s i j hq ho; exact ho
   | ev e => exact off_evStep c s e i (by simpa [enables] using hq) ho
   | advance dt => exact off_of_devs rfl ho
+  | setting v => exact off_of_devs rfl ho
 
 theorem off_step (c : Cfg) (s : St) (i : Nat) (op : Op) (hq : enables c i op = false) (ho : Off c s i) :
     Off c (step c s op) i := by
